@@ -232,13 +232,40 @@ func runJSA(c *Ctx, s *Sink) {
 		return
 	}
 	fd = findScanner(c, p, fd)
-	var loop *ast.ForStmt
+	// the scanning loop: a for statement, or a range over the length whose body starts with the exit test
+	// (for i := range lh { if stop >= 0 { break }; … }) — that test is the loop condition, not a step of the automaton
+	type scanLoop struct {
+		pos  token.Pos
+		Body *ast.BlockStmt
+	}
+	var loop *scanLoop
 	ast.Inspect(fd.Body, func(n ast.Node) bool {
-		if f, ok := n.(*ast.ForStmt); ok && loop == nil {
-			loop = f
+		if loop != nil {
+			return false
+		}
+		switch f := n.(type) {
+		case *ast.ForStmt:
+			loop = &scanLoop{f.Pos(), f.Body}
+		case *ast.RangeStmt:
+			loop = &scanLoop{f.Pos(), f.Body}
 		}
 		return true
 	})
+	if loop != nil {
+		list := loop.Body.List
+		for len(list) > 0 {
+			ifs, ok := list[0].(*ast.IfStmt)
+			if !ok || ifs.Else != nil || ifs.Init != nil || len(ifs.Body.List) != 1 {
+				break
+			}
+			br, ok := ifs.Body.List[0].(*ast.BranchStmt)
+			if !ok || br.Tok != token.BREAK || br.Label != nil {
+				break
+			}
+			list = list[1:]
+		}
+		loop = &scanLoop{loop.pos, &ast.BlockStmt{Lbrace: loop.Body.Lbrace, List: list, Rbrace: loop.Body.Rbrace}}
+	}
 	params := flattenParams(fd.Type.Params)
 	if loop == nil || len(params) == 0 {
 		s.Undecided(nil, key, fd.Pos(), "no scanning loop")
@@ -284,7 +311,7 @@ func runJSA(c *Ctx, s *Sink) {
 		return true
 	})
 	if inStr == nil || esc == nil || depth == nil {
-		s.Undecided(nil, key, loop.Pos(), "cannot identify the in-string flag (toggled on '\"'), the escape flag (assigned from a test of '\\\\') and the depth counter of the scanner")
+		s.Undecided(nil, key, loop.pos, "cannot identify the in-string flag (toggled on '\"'), the escape flag (assigned from a test of '\\\\') and the depth counter of the scanner")
 		return
 	}
 	classes := []struct {
@@ -326,7 +353,7 @@ func runJSA(c *Ctx, s *Sink) {
 					return 0, false
 				}
 				if _, err := evalStmts(c, p, loop.Body.List, env, hook); err != nil {
-					s.Undecided(nil, key, loop.Pos(), "loop body cannot be evaluated: "+err.Error())
+					s.Undecided(nil, key, loop.pos, "loop body cannot be evaluated: "+err.Error())
 					return
 				}
 				n++
@@ -359,9 +386,9 @@ func runJSA(c *Ctx, s *Sink) {
 		}
 	}
 	if len(bad) > 0 {
-		s.Fail(nil, key, loop.Pos(), "the scanner is not the JSON string automaton: "+strings.Join(bad, "; "))
+		s.Fail(nil, key, loop.pos, "the scanner is not the JSON string automaton: "+strings.Join(bad, "; "))
 	} else {
-		s.Pass(nil, key, loop.Pos(), fmt.Sprintf("%d transitions (flags x byte classes) agree with the JSON string automaton", n))
+		s.Pass(nil, key, loop.pos, fmt.Sprintf("%d transitions (flags x byte classes) agree with the JSON string automaton", n))
 	}
 }
 
